@@ -349,6 +349,11 @@ func (f *File) startSegmentIfNeeded(b Box, boxStartPos uint64) {
 	default:
 		segStart = (segIdx == 0)
 	}
+	if segIdx == 0 {
+		// There is no segment yet, so the first fragment must start one
+		// even if sidx or tfra does not point at it.
+		segStart = true
+	}
 	if segStart {
 		f.isFragmented = true
 		ms := MediaSegment{
